@@ -18,7 +18,8 @@ RULE = ("C01's systematic sweep and random histories with the fault replaced by 
         "pooled connection is checked out; C01's reply-ownership rules hold for all later calls (no cross-call read, "
         "no unread reply on an open connection, no read that can never be satisfied); a pool of size 1 serves the next "
         "call; the follow-up store/fetch give the right answers. The sweep is repeated with the server given as a UNIX socket path (plain and with the unix: prefix), and on objects that were closed (close / disconnect_all / quit) and are in use again. Re-entrant interruptions: a pooled call nested inside another on the same PooledClient (a serializer consulting the cache), the interruption raised from every socket event of the two exchanges - afterwards no connection is checked out, no connected socket lives outside the pool, and the object serves further calls. Non-trivial: the interruption hit after sendall and "
-        "before the reply was fully read (taken from the log), and a later call used the same object. Run-time reconfiguration: timeout / connect_timeout reassigned on the object (and on a hash client's per-server clients) while a connection sits in the pool, the next call interrupted at every socket event it performs. Stacks around a Client subclass that connects in its constructor and the ElastiCache subclass run through the same sweeps. Interrupted clean-up: a call that fails half-way (timeout, reset, garbage, silence after a truncated reply) and whose close() is then cut short by an interruption; the same object is used again.")
+        "before the reply was fully read (taken from the log), and a later call used the same object. Run-time reconfiguration: timeout / connect_timeout reassigned on the object (and on a hash client's per-server clients) while a connection sits in the pool, the next call interrupted at every socket event it performs. Stacks around a Client subclass that connects in its constructor and the ElastiCache subclass run through the same sweeps. Interrupted clean-up: a call that fails half-way (timeout, reset, garbage, silence after a truncated reply) and whose close() is then cut short by an interruption; the same object is used again."
+        + ' Interrupted clean-up with idle connections: a PooledClient (max_pool_size 2, 3, unbounded) whose pool holds two idle connections (two requests in flight together earlier: a get whose deserializer runs a get); a get / set / get_many / incr fails with an ordinary fault (reset, end-of-stream, timeout, EPIPE, garbage, truncated reply) and an interruption strikes in close() number 0, 1 or 2 made during that call, whichever connection is being closed; it reaches the caller, no slot stays checked out, and two requests in flight together afterwards both get a connection and their own answers.')
 MANIFEST = {
     "category": "fault_enumeration",
     "technique": "systematic enumeration of interruption points (every socket call of every operation, from a fault-free dry run) x three BaseException kinds x client stacks + Hypothesis histories; reply-ownership oracle and pool-accounting invariant",
